@@ -60,6 +60,39 @@ start :: fn do
     k()
 end
 '''),
+("method_of_a_global_instance_reads_a_later_global", True, {"a": (0, 3)}, '''
+counter :: Counter { n: 10, next: fn -> int do ret step + self.n end }
+first :: counter.next()
+step :: ?a + 1
+Counter :: blob {
+    n: int,
+    next: fn -> int,
+}
+start :: fn do
+    print(first)
+    print(counter.next() + step)
+end
+'''),
+("method_of_a_global_instance_only_called_from_start", True, {"a": (0, 3)}, '''
+Greeter :: blob {
+    greet: fn -> int,
+}
+g :: Greeter { greet: fn -> int do ret base * 2 end }
+start :: fn do
+    print(g.greet())
+end
+base :: ?a + 5
+'''),
+("initialiser_calls_a_method_that_reads_it", False, {"a": (0, 3)}, '''
+Cn :: blob {
+    next: fn -> int,
+}
+cn :: Cn { next: fn -> int do ret first + ?a end }
+first :: cn.next()
+start :: fn do
+    print(first)
+end
+'''),
 ("initialiser_that_reads_itself", False, {"a": (0, 3)}, '''
 base :: ?a
 limit : int : limit + base
